@@ -1327,6 +1327,14 @@ _dispatch_queue_try_acquire_barrier_sync_and_suspend(dispatch_lane_t dq,
 			(suspend_count * DISPATCH_QUEUE_SUSPEND_INTERVAL);
 	uint64_t old_state, new_state;
 
+	// The state is still `completely idle` while a thread that made the queue
+	// non-empty sits between publishing its item and its dx_wakeup(), so
+	// also check that nothing has been enqueued ahead of this call or we can
+	// break ordering (see _dispatch_queue_try_reserve_sync_width)
+	if (unlikely(dq->dq_items_tail)) {
+		return false;
+	}
+
 	return os_atomic_rmw_loop2o(dq, dq_state, old_state, new_state, acquire, {
 		uint64_t role = old_state & DISPATCH_QUEUE_ROLE_MASK;
 		if (old_state != (init | role)) {
